@@ -12,7 +12,7 @@ PROPERTY = "C34"
 RULE = ("generated registration sets (0-6 callbacks; filters from the documented grammar in the configured notation incl. internal-address "
         "globs; address lists with group and internal addresses; None vs empty-list arguments; outgoing flag; raising callbacks; callbacks that "
         "unregister themselves or others while running) x telegram streams (incoming/outgoing; group, internal and individual destinations; "
-        "addresses chosen on range boundaries of the filters) through TelegramQueue.process_telegram_incoming/outgoing with a stub interface; "
+        "addresses chosen on range boundaries of the filters; in a third of the cases a registration's filter / address lists are replaced in place and the same telegrams are sent again) through TelegramQueue.process_telegram_incoming/outgoing with a stub interface; "
         "observation per telegram = ordered callback ids called and whether devices.process ran. non-trivial = cases in which at least one "
         "callback was called and at least one was not")
 TRUSTED = ["model XknxVerif.Model.Callbacks hand-written on top of the C02 address-filter model; "
@@ -105,6 +105,18 @@ def generate(rng, tier):
             else:
                 a = gen_addr(rng)
             tgs.append(f"{d}:{a}")
+        if nreg and rng.random() < 0.35:
+            # a history: the same telegrams again after a registration's lists were replaced in place (what a callback is
+            # called for is decided by its lists as they are NOW, nothing remembered from earlier telegrams)
+            first = list(tgs)
+            for _ in range(rng.choice([1, 1, 2])):
+                k = rng.randrange(nreg)
+                fs = [gen_pattern(rng, fmt) if rng.random() < 0.8 else rng.choice(IGLOBS) for _ in range(rng.choice([0, 1, 1, 2]))]
+                ads = [gen_addr(rng) for _ in range(rng.choice([0, 0, 1, 2]))]
+                if rng.random() < 0.5 and first:
+                    ads.append(rng.choice(first).split(":")[1]) if first[0].split(":")[1][0] != "p" else None
+                tgs.append(f"E:{k}:{'|'.join(dotted(f) for f in fs) or '-'}:{','.join(a for a in ads if a[0] != 'p') or '-'}")
+                tgs += first if rng.random() < 0.7 else [rng.choice(first)]
         yield {"op": f"c34 run {fmt} {';'.join(regs) or '-'} {';'.join(tgs)}"}
 
 
@@ -163,6 +175,13 @@ def run_impl(case):
     out = []
     try:
         for t in ts.split(";"):
+            if t.startswith("E:"):
+                _, k, fs, ads = t.split(":")
+                h = handles[int(k)]
+                h.address_filters[:] = [AddressFilter(undot(f)) for f in fs.split("|")] if fs != "-" else []
+                h.group_addresses[:] = [mk_addr(a) for a in ads.split(",")] if ads != "-" else []
+                out.append("E")
+                continue
             d, a = t.split(":")
             tg = Telegram(destination_address=mk_addr(a), payload=GroupValueWrite(DPTBinary(1)),
                           direction=TelegramDirection.OUTGOING if d == "O" else TelegramDirection.INCOMING)
@@ -232,6 +251,12 @@ def oracle(case, out):
     regs = [r.split(":") for r in ([] if rs == "-" else rs.split(";"))]
     alive = [r[0] for r in regs]
     for tg, ev in zip(ts.split(";"), out.split(";")):
+        if tg.startswith("E:"):
+            _, k, fs, ads = tg.split(":")
+            for r in regs:
+                if r[0] == k:
+                    r[2], r[3] = fs, ads
+            continue
         evs = ev.split(",") if ev else []
         if any(e.startswith("!") for e in evs):
             return f"telegram {tg}: processing raised {evs}"
